@@ -247,14 +247,21 @@ class Profiles:
         **very** slow instead.
         """
         # add macros
+        reset = False
         for profile, properties, macros in profiles:
             if macros:
+                if set(macros).intersection(self._usedMacros):
+                    # macros already in force change: expand everything again
+                    reset = True
                 self._usedMacros.update(macros)
                 self._rawProfiles[profile] = {'macros': macros.copy()}
 
         # only add new properties
         for profile, properties, macros in profiles:
             self.addProfile(profile, properties.copy(), None)
+
+        if reset:
+            self._resetProperties()
 
     def addProfile(self, profile, properties, macros=None):
         """Add a new profile with name `profile` (e.g. 'CSS level 2')
@@ -327,6 +334,8 @@ class Profiles:
             self._profilesProperties.clear()
             self._rawProfiles.clear()
             del self._profileNames[:]
+            # no profile left: only the predefined macros remain in force
+            self._resetProperties()
         else:
             reset = False
 
